@@ -1,5 +1,6 @@
 import GoNfsd.Driver.Util
 import GoNfsd.Model.Locks
+import GoNfsd.Model.LockSched
 
 /-! `locks`: validates the recorded lock/commit event traces of real transactions against the
     discipline of Model/Locks.lean (ascending acquisition, two-phase shape). -/
@@ -46,13 +47,30 @@ def checkTxn (op : String) (evs : List Ev) : Option String :=
   else if committed && aborted then some "transaction both committed and aborted"
   else none
 
+/-- restarts a request of a sequential run may take on its own account: RENAME over an existing
+    target locks the directories, looks the names up, aborts and locks all three or four inodes in
+    order; a LOOKUP / READDIRPLUS of a child numbered below its directory does the same -/
+def freeRestarts : Nat := 1
+
+/-- `S` / `B` transactions (sequential run: the request's own and the background shrinker's) as
+    (own, committed) pairs, for `LockSched.retriesCharged` -/
+def outcomes (txns : List (List String)) : List (Bool × Bool) :=
+  txns.filterMap fun t =>
+    match t with
+    | "S" :: toks => some (true, toks.contains "c")
+    | "B" :: toks => some (false, toks.contains "c")
+    | _ => none
+
+def isMark (m : String) : Bool := m = "T" || m = "S" || m = "B"
+
 def step (_ : Unit) (line : String) : Unit × Option String :=
   match words line with
   | "LOCKS" :: op :: "::" :: rest =>
     let txns := (splitTxns rest).filter (· ≠ [])
     let bad := txns.filterMap fun t =>
       match t with
-      | "T" :: toks =>
+      | m :: toks =>
+        if !isMark m then some "transaction does not start with T, S or B" else
         let evs := toks.filter (!isNameTok ·)
         match evs.mapM parseEv, (toks.filter isNameTok).mapM parseName with
         | some es, some ns =>
@@ -62,8 +80,11 @@ def step (_ : Unit) (line : String) : Unit × Option String :=
             if insertsChecked ns [] then none
             else some "a name is inserted into a directory without having been looked up in the same transaction (check and insert are not atomic)"
         | _, _ => some "unparsable event"
-      | _ => some "transaction does not start with T"
-    ((), bad.head?)
+      | _ => some "empty transaction"
+    let retry :=
+      if GoNfsd.Model.LockSched.retriesCharged freeRestarts false (outcomes txns) then none
+      else some "a request restarted its transaction more often than its budget allows without any other transaction having committed in between (retries are not charged to anybody: livelock)"
+    ((), (bad.head?).orElse fun _ => retry)
   | _ => ((), some "unknown line")
 
 def main : IO UInt32 := runLines () step
